@@ -75,6 +75,28 @@ class Evaluator:
             return tuple(self.ev(e) for e in n.elts)
         if isinstance(n, ast.List):
             return Desc("list", length=len(n.elts))       # a list display: a list of that many items
+        if isinstance(n, (ast.GeneratorExp, ast.ListComp)) and len(n.generators) == 1 and not n.generators[0].ifs and not n.generators[0].is_async:
+            # a comprehension over concrete tuples of ints (shapes), possibly zipped - zip stops at the SHORTER one, which is how a
+            # guard written this way differs from tuple equality: evaluated element by element
+            g = n.generators[0]
+            if isinstance(g.iter, ast.Call) and norm(g.iter.func) == "zip" and g.iter.args and not g.iter.keywords:
+                seqs = [self.ev(a) for a in g.iter.args]
+                if not all(isinstance(q, tuple) and all(isinstance(x, int) for x in q) for q in seqs):
+                    raise Unknown("zip over non-shapes")
+                rows = list(zip(*seqs))
+            else:
+                v = self.ev(g.iter)
+                if not (isinstance(v, tuple) and all(isinstance(x, int) for x in v)):
+                    raise Unknown("comprehension over a non-shape")
+                rows = [(x,) for x in v]
+            names = [g.target.id] if isinstance(g.target, ast.Name) else [e.id for e in g.target.elts] if isinstance(g.target, ast.Tuple) and all(isinstance(e, ast.Name) for e in g.target.elts) else None
+            if names is None or any(len(r) != len(names) for r in rows):
+                raise Unknown("comprehension target")
+            vals = []
+            for r in rows:
+                sub = Evaluator(self.prog, self.cls, {**self.env, **dict(zip(names, r))})
+                vals.append(bool(sub.truth(sub.ev(n.elt))))
+            return ("bools", tuple(vals))
         if isinstance(n, ast.IfExp):
             return self.ev(n.body) if self.truth(self.ev(n.test)) else self.ev(n.orelse)
         if isinstance(n, ast.UnaryOp) and isinstance(n.op, ast.Not):
